@@ -191,7 +191,13 @@ func (s *sess) emit(op, res string, nontrivial bool) {
 		s.run.Count("panic-in-execution")
 		return
 	}
-	s.view = s.look()
+	if msg, p := vh.Guard(func() string { s.view = s.look(); return "" }); p {
+		// reading the governance state back through the real accessors (vote result, rank loader, queries) died
+		s.fail("the governance state written by " + op + " cannot be read back: " + msg)
+		s.dead = true
+		s.run.Op(op, res+" | unreadable", nontrivial)
+		return
+	}
 	s.run.Op(op, res+" | "+s.show(s.view), nontrivial)
 }
 
@@ -1479,6 +1485,11 @@ func (s *sess) randomSession(steps int, tiePool bool, large bool) {
 				args = nil
 				if !rng.Chance(1, 4) {
 					args = []string{"13"}
+				}
+				if rng.Chance(1, 3) {
+					// a zero-padded number: admitted (SetString), the candidate string - and with it the element of the persisted
+					// ranking - is longer than 255 bytes (never 39 characters: that length takes the peer-id branch of Less)
+					args = []string{strings.Repeat("0", 40+rng.Intn(300)) + fmt.Sprint(1+rng.Intn(9))}
 				}
 			default:
 				switch strings.ToUpper(id) {
